@@ -144,3 +144,9 @@ vp_proof! {
 // table made concrete (concrete category codes, RandomState stubbed by fixed keys; only the plain column and the order of the
 // categorical indices symbolic): symbolic execution of hashbrown + SipHash did not finish in 25 min.  std::collections::HashMap
 // stays out of reach (DESIGN R7); the seeded change C18-2 (index sort moved behind the per-column fitting loop) is therefore missed.
+
+// NOTE: "fitting a column with non-integer values is an error" was tried as a harness (one symbolic non-category value at a symbolic
+// position): the validity test comes before any hash table is used, but its outcome is a symbolic branch, so CBMC still explores the
+// HashMap continuation (8 min, no result), and `CategoryMapper::fit_to_iter` (associated function with an `impl Iterator` argument)
+// could not be replaced by a trap stub ("Cannot stub ... Expected type impl Iterator").  The value-level part of this clause is
+// decided by c18_is_valid_f32/f64.
